@@ -1,6 +1,7 @@
 #!/bin/sh
 # Build the framework from files on disk only (offline): Lean library + driver, Go harness.
 set -e
+python3 /verif/tools/extract.py
 cd /verif/lean
 lake build WitnessVerif wdrv
 cd /verif
